@@ -534,7 +534,12 @@ func (vm *VirtualMachine) eval(ctx context.Context) error {
 			for i := uint16(0); i < count; i++ {
 				items[i] = vm.pop()
 			}
-			vm.push(object.NewSet(items))
+			// An item that cannot be hashed is an error, not the value of the literal
+			set := object.NewSet(items)
+			if errObj, ok := set.(*object.Error); ok {
+				return errObj.Value()
+			}
+			vm.push(set)
 		case op.BinarySubscr:
 			idx := vm.pop()
 			lhs := vm.pop()
